@@ -33,7 +33,8 @@ class Atomic(PathRule):
          ('SAVED', local, text) local holds the pre-mutation value of <text>
     """
 
-    def __init__(self, model, fref, builders):
+    def __init__(self, model, fref, builders, ignore_mutators=()):
+        self.ignore_mutators = set(ignore_mutators)
         self.model = model
         self.fref = fref
         fn = fref.node
@@ -91,6 +92,8 @@ class Atomic(PathRule):
                 targets, exact = self.model.resolve_call(self.fref, c, self.ltypes)
                 repo_targets = [t for t in targets if exact]
                 if not repo_targets:
+                    if c.func.attr in self.ignore_mutators:
+                        return [st], []
                     normal = st | {("M", _text(c.func.value) + "." + c.func.attr)}
                     return [normal], []
             targets, exact = self.model.resolve_call(self.fref, c, self.ltypes)
@@ -137,8 +140,8 @@ class Atomic(PathRule):
         return st
 
 
-def check_atomic(model, rep, rule_id, fref, builders, construct=None):
-    rule = Atomic(model, fref, builders)
+def check_atomic(model, rep, rule_id, fref, builders, construct=None, ignore_mutators=()):
+    rule = Atomic(model, fref, builders, ignore_mutators)
     ex = Walker(rule).run(fref.node, {frozenset()})
     bad = []
     for st, node, exc in ex.raise_:
